@@ -150,7 +150,11 @@ func (t *taskState) reuseDecode(i int, po *prepOp, in []byte) {
 		t.fail(i, po, "leak", "re-used target differs from an exactly-sized copy of its prior value after decoding the same bytes, at "+path)
 		return
 	}
-	if ok, path := world.SlicesExact(tgt.Elem(), po.expVal, t.x.prep.sc.Insts[po.op.Inst]); !ok {
+	var present map[int]bool
+	if po.ti.T.Kind() == reflect.Struct {
+		present = world.PresentFields(po.data)
+	}
+	if ok, path := world.SlicesExact(tgt.Elem(), po.expVal, t.x.prep.sc.Insts[po.op.Inst], present); !ok {
 		t.fail(i, po, "leak", path)
 		return
 	}
